@@ -469,3 +469,80 @@ fn verif_native_eval_refused_cli() {
     let _ = std::fs::remove_dir_all(&dir);
     verif_out(&format!("VERIF-NATIVE name={} evaluated={} distinct={}", name, evaluated, evaluated));
 }
+
+/// the program's own output: what sits between the "Running emitted binary" banner line and the "Completed" / "Halted" banners
+fn program_output(out: &str) -> String {
+    let after = out.split("emitted binary\n").nth(1).unwrap_or("");
+    after.split("Completed").next().unwrap_or("").trim_end().to_string()
+}
+
+/// C09 at the process level (observe_at: stdout and exit status): 3 programs (output + normal end; output then PC leaving user
+/// space = exit 238; a loop with PUTN) x 6 scripts of non-mutating commands (stepping, inspection, breakpoints that are passed):
+/// `lace debug --minimal --command S` prints exactly what `lace run --minimal` prints and exits with the same status
+#[test]
+fn verif_native_transparency_cli() {
+    let name = "verif_native_transparency_cli";
+    if std::env::var("VERIF_LACE_BIN").is_err() { verif_out(&format!("VERIF-NATIVE name={} evaluated=0 distinct=0", name)); return; }
+    let dir = std::env::temp_dir().join(format!("lace-verif-transcli-{}", std::process::id()));
+    std::fs::create_dir_all(&dir).unwrap();
+    let progs = [
+        "lea r0, s\nputs\nld r0, c\nout\nhalt\ns .stringz \"hi \"\nc .fill x21\n",
+        "ld r0, c\nout\nld r1, far\njmp r1\nc .fill x41\nfar .fill x2000\n",
+        "and r1,r1,#0\nadd r1,r1,#3\nl add r0,r1,#0\nputn\nadd r1,r1,#-1\nbrp l\nhalt\n",
+    ];
+    let scripts = ["step; step; continue", "step into 3; registers; print r0; continue", "break add x3002; continue; break list; continue; continue",
+        "assembly; print ^1; step into 100", "continue", "step into 2; quit"];
+    let mut evaluated = 0u64;
+    for src in progs {
+        let asm = dir.join("t.asm");
+        std::fs::write(&asm, src).unwrap();
+        let (code0, out0) = run_lace_stdin(&["run", "-m", asm.to_str().unwrap()], b"").expect("lace binary");
+        for script in scripts {
+            evaluated += 1;
+            let (code1, out1) = run_lace_stdin(&["debug", "-m", "--command", script, asm.to_str().unwrap()], b"").expect("lace binary");
+            if code0 != code1 || program_output(&out0) != program_output(&out1) {
+                verif_out(&format!("VERIF-COUNTEREXAMPLE name={} input=program {:?} script {:?} detail=run: exit {} output {:?}; debug: exit {} output {:?}", name, src, script, code0, program_output(&out0), code1, program_output(&out1)));
+                panic!("violation");
+            }
+        }
+    }
+    let _ = std::fs::remove_dir_all(&dir);
+    verif_out(&format!("VERIF-NATIVE name={} evaluated={} distinct={}", name, evaluated, evaluated));
+}
+
+/// C02 / C03 / C18 exit statuses of the real process (the deductive checks see the documented status only as the argument of a
+/// modelled exit): normal end 0; PC leaving [origin, xFE00) 238 (xEE) below and above; unknown trap vector 238; opcode xD
+/// without the flag 1; running off the end into the HALT sentinel 0
+#[test]
+fn verif_native_exit_statuses_cli() {
+    let name = "verif_native_exit_statuses_cli";
+    if std::env::var("VERIF_LACE_BIN").is_err() { verif_out(&format!("VERIF-NATIVE name={} evaluated=0 distinct=0", name)); return; }
+    let dir = std::env::temp_dir().join(format!("lace-verif-exitcli-{}", std::process::id()));
+    std::fs::create_dir_all(&dir).unwrap();
+    let cases: [(&str, &[&str], i32); 8] = [
+        ("halt\n", &[], 0),
+        ("add r0,r0,#1\n", &[], 0),                                   // runs into the implicit HALT
+        ("ld r1, t\njmp r1\nt .fill x2000\n", &[], 238),            // below the origin
+        ("ld r1, t\njmp r1\nt .fill xFE00\n", &[], 238),            // at the end of user space
+        ("trap x30\n", &[], 238),                                      // unknown trap vector
+        ("trap xFF\n", &[], 238),
+        (".fill xD440\nhalt\n", &[], 1),                             // PUSH without -f stack
+        (".fill xD440\nhalt\n", &["-f", "stack"], 0),
+    ];
+    let mut evaluated = 0u64;
+    for (src, flags, want) in cases {
+        evaluated += 1;
+        let asm = dir.join("x.asm");
+        std::fs::write(&asm, src).unwrap();
+        let mut args: Vec<&str> = vec!["run", "-m"];
+        args.extend_from_slice(flags);
+        args.push(asm.to_str().unwrap());
+        let (code, _) = run_lace_stdin(&args, b"").expect("lace binary");
+        if code != want {
+            verif_out(&format!("VERIF-COUNTEREXAMPLE name={} input=program {:?} flags {:?} detail=exit status {}, documented {}", name, src, flags, code, want));
+            panic!("violation");
+        }
+    }
+    let _ = std::fs::remove_dir_all(&dir);
+    verif_out(&format!("VERIF-NATIVE name={} evaluated={} distinct={}", name, evaluated, evaluated));
+}
